@@ -76,12 +76,13 @@ def l0_tie(res):
     quote style, a call_parentheses, a space_after_function_names and a collapse_simple_statement value drawn for each.  Returns (totals, payloads)."""
     n = 1500 if res.tier == "quick" else 40000
     lines, errs = run_pipeline_sharded(lambda i, k: ([SVH, "l0", "--seed", str(res.seed), "--n", str(n), "--shard", "%d/%d" % (i, k)], [driver("drv_l0")]))
-    tot, stats, payloads = {}, {}, []
+    tot, stats, payloads, nonidem = {}, {}, [], []
     for l in lines:
         if l.startswith("SUMMARY"):
             for k, v in parse_kv(l).items(): tot[k] = tot.get(k, 0) + int(v)
         elif l.startswith("STATS"):
             for k, v in parse_kv(l).items(): stats[k] = stats.get(k, 0) + int(v)
+        elif l.startswith("NONIDEM"): nonidem.append(l.split()[1])
         elif l.startswith("BAD") and len(payloads) < 3:
             w = l.split()
             payloads.append(dict(kind="input", check="L0:" + w[1], case=w[2], family="l0", seed=res.seed, n=n, region="L0 tie (programs of the fragment, 4 configurations: whitespace, quote style, call_parentheses, space_after_function_names, collapse_simple_statement)",
@@ -89,6 +90,9 @@ def l0_tie(res):
     if errs or not tot.get("records") or tot.get("records") != stats.get("records"):
         payloads.append(dict(kind="obligation", obligation=dict(correspondence="L0 tie", log="; ".join(errs) or "record count mismatch")))
     tot = dict(tot, generated=dict((k, v) for k, v in stats.items() if k != "records"))
+    tot["second_pass"] = ("the library formats its own output once more; Fmt0.format0 on the tree it wrote (Fmt0.norm0) must give the same bytes. "
+                          "Records on which the model's two passes differ fall outside the premise of C06_L0_both_passes_idempotent_without_a_double_minus: the listed finding")
+    res.l0_nonidem = nonidem
     return tot, payloads
 
 def c06_witness(res):
@@ -109,7 +113,7 @@ def c06_witness(res):
 def run_prop(res, prop, extra_obligations=1):
     sp = SPEC[prop]
     semi = prop in ("C01", "C02")
-    kernels = {"C01": ["semicolon_rule"], "C02": ["semicolon_rule", "collapse_rule"], "C03": ["collapse_rule", "if_guard"], "C10": ["whitespace_and_call_options"], "C11": ["quote_choice", "whitespace_and_call_options"]}.get(prop, [])
+    kernels = {"C01": ["semicolon_rule", "double_minus_guard"], "C02": ["semicolon_rule", "collapse_rule"], "C06": ["double_minus_guard", "condition_parentheses"], "C03": ["collapse_rule", "if_guard", "condition_parentheses"], "C10": ["whitespace_and_call_options"], "C11": ["quote_choice", "whitespace_and_call_options"]}.get(prop, [])
     if prop in L0_PROPS: extra_obligations += 1     # the L0 tie
     t_ok, t_log = True, ""
     for kname in kernels:               # Tie 1: each kernel the theorems speak about is regenerated from /repo's source
@@ -133,6 +137,13 @@ def run_prop(res, prop, extra_obligations=1):
         payloads = more + payloads; ok = ok and not more
         res.coverage["evaluations"] = res.coverage.get("evaluations", 0) + l0.get("records", 0)
         res.coverage["input_distribution"]["L0_tie"] = l0
+    if prop == "C06" and getattr(res, "l0_nonidem", None):
+        # a second pass that differs exactly as the model predicts: an instance of the double-minus finding, if it is listed
+        kf = [e for e in known_findings("C06") if e.get("id") == "F-C06-kept-parens-around-guarded-minus"]
+        if kf: res.known.append(kf[0]["what"] + " (%d records of the L0 tie, predicted by the model)" % len(res.l0_nonidem))
+        else:
+            payloads.append(dict(kind="input", check="L0:second-pass-differs-as-the-model-predicts", case=res.l0_nonidem[0], family="l0", seed=res.seed, n=(1500 if res.tier == "quick" else 40000),
+                                 expected="a second pass changes nothing (or the finding is listed)")); ok = False
     if prop == "C06" and not c06_witness(res):
         payloads.append(dict(kind="input", check="second-pass-differs", family="witness", source="local x = (- -f())\n", expected="a second pass changes nothing (or the finding is listed)")); ok = False
     if prop == "C01":
